@@ -1123,7 +1123,6 @@ Example C06_volume_refine_remove_instance :
   eqLLQ (v_P gA) (v_P exVrl) = true.
 Proof. cbv zeta. repeat split; vm_compute; congruence. Qed.
 
-
 (* ====================== TRANSLATOR TIE (Proofs/GenTie*.v) ======================
    coq/Gen/*.v is the Gallina rendering of the Python source produced by harness/pytrans.py; every run of ./check regenerates it
    from /repo and compares it function by function with the committed text (evidence: translator_tie).  The theorems below say
